@@ -186,6 +186,7 @@ type Run struct {
 	handlerDone    chan struct{}
 	ClientDone     chan struct{} // closed when the client actors have finished
 	hStarted       atomic.Int32
+	Stuck          bool // the watchdog fired with every goroutine parked for good
 	HandlerCtx     context.Context
 	HandlerMD      metadata.MD
 	HandlerPeer    *peer.Peer
